@@ -897,7 +897,7 @@ v_enum(mc_op *out, int max)
                 ADD(O_SETATTR, o, 0, 2, 1); /* other type and count */
                 ADD(O_SETATTR, o, 0, 1, 3); /* same type, other count */
             }
-            if (thorough || o == VO_RI || o == VO_VG) {
+            if (thorough || o == VO_RI || o == VO_VG || o == 0 /* the GR file itself */) {
                 ADD(O_SETATTR, o, 2, 0, 3);
                 ADD(O_SETATTR, o, 0, 1, 1100); /* 2200 bytes: beyond the 2048-byte attribute cache of GR */
             }
